@@ -42,6 +42,11 @@
 #include "version_edit.h"
 #include "version_set.h"
 
+#ifdef LCDB_VERIF
+/* Verification hook (defined by the harness that sets -DLCDB_VERIF). */
+extern double lcdb_verif_l1_bytes;
+#endif
+
 /*
  * Helpers
  */
@@ -73,6 +78,12 @@ max_bytes_for_level(const ldb_dbopt_t *options, int level) {
   double result = 10. * 1048576.0;
 
   (void)options;
+
+#ifdef LCDB_VERIF
+  /* Verification hook H2: optional override of the level-1 byte budget. */
+  if (lcdb_verif_l1_bytes > 0)
+    result = lcdb_verif_l1_bytes;
+#endif
 
   /* Result for both level-0 and level-1. */
   while (level > 1) {
